@@ -198,6 +198,33 @@ type c01case struct {
 	R       int      `json:"severity"`
 	Entry   string   `json:"entry"`
 	Format  string   `json:"format"`
+	Pre     string   `json:"lifecycle,omitempty"`
+}
+
+// c01lifecycles: what happened to the logger before the decision is observed. Close is "reserved for future"
+// and a logger stays a logger after it; the statement knows no closed state that would silence an admitted record.
+var c01lifecycles = []string{"A.Close()", "child New(item) used, closed, obtained again by name and given writers again", "parent closed, child used", "A.Close() twice, writers set again"}
+
+func c01lifecycle(pre string, a slog.Logger, rec *recorder) slog.Logger {
+	w := &plainW{"w", rec}
+	switch pre {
+	case "A.Close()":
+		a.Close()
+	case "child New(item) used, closed, obtained again by name and given writers again":
+		ch := a.New("item").SetWriter(w).SetErrorWriter(w)
+		ch.Info("first item")
+		ch.Close()
+		return a.New("item").SetWriter(w).SetErrorWriter(w)
+	case "parent closed, child used":
+		ch := a.New("item").SetWriter(w).SetErrorWriter(w)
+		a.Close()
+		return ch
+	case "A.Close() twice, writers set again":
+		a.Close()
+		a.Close()
+		a.SetWriter(w).SetErrorWriter(w)
+	}
+	return a
 }
 
 // c01build replays a history on a fresh world and returns logger A.
@@ -322,6 +349,9 @@ func c01replay(raw json.RawMessage) *Violation {
 	}
 	ops := c01ops()
 	a, rec := c01build(ops, cas.History)
+	if cas.Pre != "" {
+		a = c01lifecycle(cas.Pre, a, rec)
+	}
 	customs, _ := c01customMaps()
 	for _, e := range c01entries() {
 		if e.name == cas.Entry {
@@ -487,6 +517,41 @@ func c01run(c *Ctx) {
 				}
 			}
 		}
+	}
+	// ---- lifecycle layer: the decision of a logger that was closed (or whose parent was), all entry points of the logger itself
+	if c.Shard == 0 {
+		for _, pre := range c01lifecycles {
+			for _, format := range []string{"color", "json"} {
+				for _, L := range builtinLevels {
+					for ei := range entries {
+						e := &entries[ei]
+						if e.pkg {
+							continue
+						}
+						rs := builtinLevels
+						if e.fixed || e.never {
+							rs = builtinLevels[:1]
+						}
+						for _, r := range rs {
+							if e.usable != nil && !e.usable(r) {
+								continue
+							}
+							a, rec := c01build(ops, nil)
+							a = c01lifecycle(pre, a, rec)
+							c.Count("evaluations", 1)
+							if v := c01probe(a, rec, e, L, r, format, map[slog.Level]slog.Level{}, func() c01case {
+								return c01case{L: int(L), R: int(r), Entry: e.name, Format: format, Pre: pre}
+							}); v != nil {
+								v.Sig += "|after=" + pre
+								v.Detail = "after: " + pre + "; " + v.Detail
+								c.Violate(v)
+							}
+						}
+					}
+				}
+			}
+		}
+		c.Info("lifecycle_scenarios", c01lifecycles)
 	}
 	c.Assume("logger levels OK/Success/Fail are compared only where the raw and the treated-as reading of the logger level agree (the statement does not fix the other cells)")
 	c.Assume("custom levels are used both as severity and as logger level; cells whose reference is not fixed by the statement are skipped")
